@@ -106,6 +106,12 @@ func (w *World) VerifyFunc(ct *Contract) (res *FuncResult) {
 		if ca.Kind == "call" && fr.callN[fmt.Sprintf("assertseen:%d", k)] == 0 {
 			e.ob(fr, "assert", fmt.Sprintf("assert@%s#%d", ca.Callee, ca.N), reach, "false", "no such call: "+ca.Clause.Src, fn.Pos())
 		}
+		if ca.Kind == "store" && fr.callN[fmt.Sprintf("assertseen:%d", k)] == 0 {
+			e.ob(fr, "assert", fmt.Sprintf("assert@store.%s#%d", ca.Callee, ca.N), reach, "false", "no such store: "+ca.Clause.Src, fn.Pos())
+		}
+		if ca.Kind == "return" && fr.callN[fmt.Sprintf("assertseen:%d", k)] == 0 {
+			e.ob(fr, "assert", fmt.Sprintf("assert@return#%d", ca.N), reach, "false", "no such return: "+ca.Clause.Src, fn.Pos())
+		}
 	}
 	// vacuity: the exit must be reachable under the requires and all assumed callee contracts
 	v := e.ob(fr, "vacuity", "vacuity", reach, "false", "exit reachable under requires/assumptions", fn.Pos())
